@@ -21,13 +21,13 @@ ASSUMPTIONS = [
     "for 3-D sets with different heights per tower/step the per-slice height is read from the (time, tower, z) variable "
     "'level_height'; the single z coordinate holds the heights of the first result",
 ]
-MIN_NONTRIVIAL = {"quick": 60, "thorough": 600}
-TIMEOUT = {"quick": 900, "thorough": 2400}
+MIN_NONTRIVIAL = {"quick": 60, "thorough": 1920}
+TIMEOUT = {"quick": 900, "thorough": 7000}
 
 
 def cases(tier, seed):
     out = []
-    n = 96 if tier == "quick" else 960
+    n = 96 if tier == "quick" else 3840
     for i in range(n):
         out.append({"seed": seed, "idx": i, "source": "synthetic", "_cost": 1})
     for i in range(8 if tier == "quick" else 48):
